@@ -64,10 +64,10 @@ func (s state) clone() state {
 
 // Access is one read or write of a guarded field's content.
 type Access struct {
-	Field  string // "engine.controller.sources"
-	Write  bool
-	Instr  ssa.Instruction
-	Held   map[LockID]Mode // state on some path reaching it (the weakest seen for the guarding lock)
+	Field   string // "engine.controller.sources"
+	Write   bool
+	Instr   ssa.Instruction
+	Held    map[LockID]Mode // state on some path reaching it (the weakest seen for the guarding lock)
 	Weakest Mode            // weakest mode of the guarding lock over all paths
 }
 
